@@ -75,7 +75,7 @@ def run(chk, scratch):
     chk.nontrivial += len(ev)
     chk.sample({"random_tree_result": {k: ev[0][k] for k in ("call", "err", "remaining", "outsideChanged")}})
     chk.cov["rule"] = ("scenario = optional nodes of a small tree x place and target class of a symbolic link (file/dir inside, file/dir outside, ancestor, dangling, none) x entry point "
-                       "(Rm, Rm on the link, CleanDir, GarbageCollect, Rm/CleanDir with an exclusion pattern) x pattern, enumerated exhaustively by TLC with the expected tree afterwards; "
+                       "(Rm, Rm on the link, CleanDir, GarbageCollect with everything expired, GarbageCollect with every file and directory expired but a fresh link, Rm/CleanDir with an exclusion pattern) x pattern, enumerated exhaustively by TLC with the expected tree afterwards; "
                        "materialised on the OS filesystem (link-free subset also on MemMapFs) and compared through a no-follow snapshot of the whole sandbox; non-trivial = has a link or a pattern")
     chk.assumptions += ["MemMapFs has no symbolic links: link scenarios run on the OS backend only",
                         "names are chosen so that patterns match whole names and nothing in the sandbox path"]
